@@ -377,10 +377,14 @@ def token_count(check: Check, repo: Repo) -> None:
     )
     mod = repo.mod("language.parser")
     calls = [n for n in ast.walk(mod.tree) if isinstance(n, ast.Call) and isinstance(n.func, ast.Attribute)
-             and n.func.attr == "advance" and "_lexer" in unparse(n.func.value)]
+             and n.func.attr == "advance" and not n.args]  # any receiver: `lexer = self._lexer; lexer.advance()` counts
     owners = {qualname_of(c) for c in calls}
     check.ob(rule, calls[0] if calls else mod.tree.body[0], "single call site of Lexer.advance",
              owners == {"Parser.advance_lexer"} and len(calls) == 1, f"call sites: {sorted(owners)} ({len(calls)})")
+    # ... and nobody in the parser moves the cursor by storing into the lexer's token fields
+    moves = [n for n in ast.walk(mod.tree) if isinstance(n, ast.Attribute) and isinstance(n.ctx, ast.Store) and n.attr in ("token", "last_token")]
+    check.ob(rule, moves[0] if moves else mod.tree.body[0], "the parser never stores into <lexer>.token / .last_token", not moves,
+             "no such store" if not moves else f"stores in {sorted({qualname_of(m) for m in moves})}: a token consumed without being counted")
     fn = repo.func("language.parser", "Parser.advance_lexer")
     incs = [n for n in walk_body(fn) if isinstance(n, ast.AugAssign) and unparse(n.target) == "self._token_counter"]
     ok = len(incs) == 1 and isinstance(incs[0].op, ast.Add) and unparse(incs[0].value) == "1"
